@@ -400,17 +400,46 @@ def run_go(sd, cases, nfiles=4):
     return cs, out
 
 
-def io_records(cases, out):
-    return [{"id": c["id"], "fn": c["fn"], "args": c["args"], "ctx": c["ctx"], "out": out[c["id"]]} for c in cases if c["id"] in out]
+def io_records(cases, out, src):
+    return [{"id": c["id"], "src": src, "fn": c["fn"], "args": c["args"], "ctx": c["ctx"], "out": out[c["id"]]}
+            for c in cases if c["id"] in out]
 
 
 def judge(chk, sd, recs, name, cfg="RuntimeFuncs_Trace.cfg"):
-    p = os.path.join(sd, "io-%s.ndjson" % re.sub(r"\W+", "_", name or "selftest"))
+    """one TLC run of the contract over the records; returns {src: [bad entries]}"""
+    p = os.path.join(sd, "io-%s.ndjson" % re.sub(r"\W+", "_", name))
     vf.write_ndjson(p, recs)
     n, bad = vf.fio_validate(chk, SPEC, "RuntimeFuncs_Trace", cfg, sd, p, name=name, timeout=1500)
     if n != len(recs):
         raise vf.NoVerdict("contract run saw %d records, %d were logged" % (n, len(recs)))
-    return bad
+    by = {}
+    for b in bad:
+        by.setdefault(b["src"], []).append(b)
+    return by
+
+
+def perturb(recs, rng, k=20):
+    """binding self-test input: k accepted-looking results with their first value changed"""
+    pert = []
+    for r0 in rng.sample(recs, k):
+        r1 = json.loads(json.dumps(r0))
+        r1["src"] = "pert"
+        v = r1["out"]["vals"][0]
+        if v["t"] == "s":
+            v["v"] = v["v"] + [120]
+        elif v["t"] in ("i", "i64", "f", "by", "r"):
+            if v["d"]:
+                v["d"] = v["d"] + [48]
+            else:
+                v["v"] = v["v"] + 1
+        elif v["t"] in ("b", "e"):
+            v["v"] = not v["v"]
+        elif v["t"] == "ls":
+            v["v"] = v["v"] + [[120]]
+        elif v["t"] == "li":
+            v["v"] = v["v"] + [7]
+        pert.append(r1)
+    return pert
 
 
 def describe(c, out):
@@ -461,48 +490,38 @@ def run():
         # 3. run on the real ego binary
         ov = vf.make_overlay(sd, [])
         ego = vf.build_ego(sd, ov)
-        out, info, nprog = run_ego(sd, ego, cases, 250 if thorough else 120, "main")
-        recs = io_records(cases, out)
-        # 4. judge
-        bad = judge(chk, sd, recs, "contract over ego calls")
-        # 5. Go cross-check of the spec (never a violation)
-        gcs, gout = run_go(sd, cases, nfiles=8 if thorough else 4)
-        gbad = judge(chk, sd, io_records(gcs, gout), "contract over Go toolchain calls (spec cross-check)")
-        if gbad:
-            byid = {c["id"]: c for c in cases}
-            ex = [describe(byid[b["id"]], gout[b["id"]]).replace("ego:", "go:") + " key=" + b["key"] for b in gbad[:8]]
-            raise vf.NoVerdict("the specification disagrees with the Go toolchain on %d calls (fix the spec):\n  %s" % (len(gbad), "\n  ".join(ex)))
+        # 4. (concurrently) the same calls with the Go toolchain (cross-check of the spec, never a violation)
+        from concurrent.futures import ThreadPoolExecutor
+        with ThreadPoolExecutor(max_workers=1) as tp:
+            gofut = tp.submit(run_go, sd, cases, 8 if thorough else 4)
+            out, info, nprog = run_ego(sd, ego, cases, 250 if thorough else 120, "main")
+            gcs, gout = gofut.result()
+        recs = io_records(cases, out, "ego")
+        grecs = io_records(gcs, gout, "go")
+        # 5. binding self-test input: results of the Go toolchain, perturbed (they must be rejected)
+        rng = random.Random(vf.SEED)
+        cand = [r for r in grecs if r["out"]["st"] == "ok" and r["out"]["vals"] and r["fn"] != "sort.Slice"
+                and not any(v["t"] == "e" and v["v"] for v in r["out"]["vals"])]    # (results beside an error are not compared)
+        if len(cand) < 40:
+            raise vf.NoVerdict("self-test: too few calls")
+        pert = perturb(cand, rng, 20)
+        # 6. judge: one TLC run of the contract over ego calls, Go calls and perturbed calls
+        bad = judge(chk, sd, recs + grecs + pert, "contract over logged calls (ego, go cross-check, self-test)")
         byid = {c["id"]: c for c in cases}
-        for b in bad:
+        if bad.get("go"):
+            ex = [describe(byid[b["id"]], gout[b["id"]]).replace("ego:", "go:") + " key=" + b["key"] for b in bad["go"][:8]]
+            raise vf.NoVerdict("the specification disagrees with the Go toolchain on %d calls (fix the spec):\n  %s"
+                               % (len(bad["go"]), "\n  ".join(ex)))
+        if len(bad.get("pert", [])) != len(pert):
+            raise vf.NoVerdict("binding self-test failed: %d of %d perturbed results were accepted"
+                               % (len(pert) - len(bad.get("pert", [])), len(pert)))
+        chk.cov["binding_selftest"] = "20 results perturbed in their first value: all rejected by the contract"
+        for b in bad.get("ego", []):
             c = byid[b["id"]]
-            chk.violation(b["key"], describe(c, out[c["id"]]) + "; the Go function gives a different result (see spec Eval)",
+            chk.violation(b["key"], describe(c, out[c["id"]]) + "; the Go function gives " +
+                          (describe(c, gout[c["id"]]).split("-> ego: ")[1] if c["id"] in gout else "a different result (see Eval in the spec)"),
                           {"case": c, "ego_out": out[c["id"]], "ego_source": ego_program([c]), "abort_info": info.get(c["id"]),
                            "go_out": gout.get(c["id"])})
-        # 6. binding self-test: perturbed results must be rejected
-        rng = random.Random(vf.SEED)
-        okrecs = [r for r in recs if r["out"]["st"] == "ok" and r["out"]["vals"] and r["id"] not in {b["id"] for b in bad}]
-        if len(okrecs) < 20:
-            raise vf.NoVerdict("self-test: too few accepted calls")
-        pert = []
-        for r0 in rng.sample(okrecs, 20):
-            r1 = json.loads(json.dumps(r0))
-            v = r1["out"]["vals"][0]
-            if v["t"] == "s":
-                v["v"] = v["v"] + [120]
-            elif v["t"] in ("i", "i64", "f", "by", "r"):
-                v["v"] = v["v"] + 1 if not v["d"] else v["v"]
-                v["d"] = v["d"] + [48] if v["d"] else v["d"]
-            elif v["t"] in ("b", "e"):
-                v["v"] = not v["v"]
-            elif v["t"] == "ls":
-                v["v"] = v["v"] + [[120]]
-            elif v["t"] == "li":
-                v["v"] = v["v"] + [7]
-            pert.append(r1)
-        pbad = judge(chk, sd, pert, None)
-        if len(pbad) != len(pert):
-            raise vf.NoVerdict("binding self-test failed: %d of %d perturbed results were accepted" % (len(pert) - len(pbad), len(pert)))
-        chk.cov["binding_selftest"] = "20 logged results perturbed in their first value: all rejected by the contract"
         # evidence
         chk.cov["traces_validated_against_impl"] = nprog
         chk.cov["evaluations"] = len(recs)
